@@ -4,12 +4,13 @@
 #include "driver.h"
 #include "world.h"
 #include "peek.h"
+#include <map>
 
 enum { SC_LOAD_RSA = 0, SC_LOAD_EC_ALL, SC_NEW_SESSIONS, SC_TLS12_RSA, SC_TLS12_ECDSA_CAUTH, SC_TLS11_ECDHE_RSA, SC_TLS12_RESUME_ID, SC_TLS12_RESUME_TICKET,
-       SC_TLS13_FULL, SC_TLS13_PSK_RESUME, SC_TLS13_CAUTH, SC_DTLS12_FRAG, SC_TLS12_PSK, SC_DATA_GROWTH,
+       SC_TLS13_FULL, SC_TLS13_PSK_RESUME, SC_TLS13_CAUTH, SC_DTLS12_FRAG, SC_TLS12_PSK, SC_DATA_GROWTH, SC_TLS12_TICKET_REISSUE,
        SC_NEG_UNKNOWN_CA_12, SC_NEG_UNKNOWN_CA_13, SC_NEG_BAD_SIG_12, SC_NEG_BAD_SIG_13, SC_NEG_FORGED_CERT_12, SC_NEG_FORGED_CERT_13, SC_NEG_FORGED_CERT_RSA_12, SC_N };
 static const char *SC_NAME[] = { "load_rsa", "load_ec_all", "new_sessions", "tls12_rsa", "tls12_ecdsa_cauth", "tls11_ecdhe_rsa", "tls12_resume_id", "tls12_resume_ticket",
-                                 "tls13_full", "tls13_psk_resume", "tls13_cauth", "dtls12_frag", "tls12_psk", "data_growth",
+                                 "tls13_full", "tls13_psk_resume", "tls13_cauth", "dtls12_frag", "tls12_psk", "data_growth", "tls12_ticket_reissue",
                                  "neg_unknown_ca_12", "neg_unknown_ca_13", "neg_bad_sig_12", "neg_bad_sig_13", "neg_forged_cert_12", "neg_forged_cert_13", "neg_forged_cert_rsa_12" };
 static bool sc_negative(int s) { return s >= SC_NEG_UNKNOWN_CA_12; }
 
@@ -29,6 +30,7 @@ static PairCfg sc_cfg(int s) {
     case SC_TLS12_ECDSA_CAUTH: pc.version = v_tls_1_2; pc.suites = { TLS_ECDHE_ECDSA_WITH_AES_128_GCM_SHA256 }; pc.server_identity = KK_EC256; pc.client_identity = KK_EC256; pc.client_auth = true; break;
     case SC_TLS11_ECDHE_RSA: pc.version = v_tls_1_1; pc.suites = { TLS_ECDHE_RSA_WITH_AES_128_CBC_SHA }; pc.server_identity = KK_RSA2048; break;
     case SC_TLS12_RESUME_ID: pc.version = v_tls_1_2; pc.suites = { TLS_ECDHE_ECDSA_WITH_AES_128_CBC_SHA }; pc.server_identity = KK_EC256; break;
+    case SC_TLS12_TICKET_REISSUE: pc.version = v_tls_1_2; pc.suites = { TLS_ECDHE_RSA_WITH_AES_128_GCM_SHA256 }; pc.server_identity = KK_RSA2048; pc.tickets = true; break;
     case SC_TLS12_RESUME_TICKET: pc.version = v_tls_1_2; pc.suites = { TLS_RSA_WITH_AES_128_GCM_SHA256 }; pc.server_identity = KK_RSA2048; pc.tickets = true; break;
     case SC_TLS13_FULL: pc.version = v_tls_1_3; pc.suites = { TLS_AES_128_GCM_SHA256 }; pc.server_identity = KK_EC256; pc.tickets = true; break;
     case SC_TLS13_PSK_RESUME: pc.version = v_tls_1_3; pc.suites = { TLS_CHACHA20_POLY1305_SHA256 }; pc.server_identity = KK_EC256; pc.tickets = true; break;
@@ -81,7 +83,7 @@ static ScOutcome run_scenario(const Plan &p, bool count_only) {
     PairCfg pc = sc_cfg(s);
     if (s == SC_DTLS12_FRAG) { vsim_set_node(NODE_HARNESS); matrixDtlsSetPmtu(400); }
     TlsWorld w;
-    bool resumed_sc = s == SC_TLS12_RESUME_ID || s == SC_TLS12_RESUME_TICKET || s == SC_TLS13_PSK_RESUME;
+    bool resumed_sc = s == SC_TLS12_RESUME_ID || s == SC_TLS12_RESUME_TICKET || s == SC_TLS13_PSK_RESUME || s == SC_TLS12_TICKET_REISSUE;
     bool late_arm = resumed_sc || s == SC_DATA_GROWTH;
     if (!late_arm) { if (!count_only) { arm_fault(p); } else { vsim_alloc_arm(); vsim_entropy_arm(); } }
     bool ok = w.setup(pc);
@@ -89,6 +91,14 @@ static ScOutcome run_scenario(const Plan &p, bool count_only) {
         ok = w.connect() && w.handshake();
         if (ok) { Bytes a = tagged_payload(0, 1, 30); w.cli->app_send(a.data(), a.size()); w.pump(); w.cli->app_close(); w.pump(); }
         w.close_sessions();
+        if (ok && s == SC_TLS12_TICKET_REISSUE) {
+            // the server's ticket key is rotated: the ticket the client holds no longer decrypts, the second handshake is a full one
+            // that issues a replacement ticket over the one held in the session id object
+            unsigned char name[16], sym[32], mac[32];
+            vsim_set_node(NODE_SERVER);
+            ticket_key_material(1, name, sym, mac); matrixSslDeleteSessionTicketKey(w.skeys, name);
+            ticket_key_material(2, name, sym, mac); matrixSslLoadSessionTicketKeys(w.skeys, name, sym, 32, mac, 32);
+        }
     }
     if (ok && s == SC_NEW_SESSIONS) {
         // session creation with every option that allocates: expected name, groups, sig algs, session id
@@ -132,6 +142,7 @@ static ScOutcome run_scenario(const Plan &p, bool count_only) {
     return o;
 }
 
+static std::vector<uint32_t> g_sites[SC_N];   // allocation site digest per allocation index of the fault-free scenario
 static uint64_t g_counts[SC_N][2];   // allocations / entropy draws per scenario (measured fault-free when the plans are enumerated)
 
 static void measure_scenarios() {
@@ -141,9 +152,13 @@ static void measure_scenarios() {
     for (int s = 0; s < SC_N; s++) {
         Plan p; p.cfg["sc"] = s; p.seed = 190000 + (uint64_t) s;
         vsim_run_reset(p.seed); sim_global_open();
+        std::vector<uint32_t> tr(400000, 0);
+        vsim_alloc_site_trace(tr.data(), tr.size());
         ScOutcome o = run_scenario(p, true);
+        vsim_alloc_site_trace(nullptr, 0);
         sim_global_close();
         g_counts[s][0] = o.allocs; g_counts[s][1] = o.draws;
+        tr.resize(o.allocs < tr.size() ? (size_t) o.allocs : tr.size()); g_sites[s] = tr;
     }
 }
 
@@ -153,8 +168,10 @@ static std::vector<Plan> c19_fixed(int tier) {
     for (int s = 0; s < SC_N; s++) {
         uint64_t n = g_counts[s][0];
         // quick: every index of the small scenarios, every index up to 600 and then a stride for the long ones; thorough: every index
+        std::map<uint32_t, int> seen;      // quick tier also takes the first four failures of every allocation SITE of the scenario, wherever they fall
         for (uint64_t k = 0; k < n; k++) {
-            if (!tier && k >= 600 && (k % (n > 6000 ? 13 : 5)) != 0) { continue; }
+            bool by_site = k < g_sites[s].size() && seen[g_sites[s][(size_t) k]]++ < 4;
+            if (!tier && k >= 600 && (k % (n > 6000 ? 13 : 5)) != 0 && !by_site) { continue; }
             Plan p; p.seed = 190000 + (uint64_t) s; p.cfg["sc"] = s; p.cfg["fault"] = F_ALLOC; p.cfg["n"] = (int64_t) n;
             p.ops.push_back(Op("fail", (int64_t) k, 1));
             v.push_back(p);
@@ -232,7 +249,7 @@ static RunResult c19_exec(const Plan &p) {
 static ModuleRegistrar reg({ "C19", "fault", "fault_enumeration",
     "21 fixed scenarios (key loading RSA / EC+CA bundle+PSK+ticket keys+TLS 1.3 PSK; session creation with options; full TLS 1.1/1.2/1.3 handshakes RSA / ECDHE-RSA / ECDHE-ECDSA, client auth, PSK; id-, ticket- and TLS 1.3 PSK-resumed handshakes; "
     "DTLS 1.2 with fragmentation; data exchange with buffer growth; seven must-fail authentication scenarios: unknown CA, corrupted key-exchange / CertificateVerify signature, forged certificate). Each scenario's allocations and entropy reads are counted fault-free, then EVERY allocation index is failed once "
-    "(thorough; quick: every index of short scenarios, the first 600 and a stride of the long ones) and every entropy read is failed (hard error; thorough also short read and EINTR burst); plus seeded multi-fault sequences (2-4 faults, bursts). "
+    "(thorough; quick: every index of short scenarios, the first 600, a stride, and the first four occurrences of every allocation site of the long ones) and every entropy read is failed (hard error; thorough also short read and EINTR burst); plus seeded multi-fault sequences (2-4 faults, bursts). "
     "non-trivial = the injected fault actually fired; distinct = distinct (scenario, outcome history, fired count)",
     c19_gen, c19_exec, 600, 6000, 150, 2400,
     { "core (allocator macros routed through the seam; psGetEntropy retry loops run for real)", "crypto", "matrixssl" },
